@@ -258,6 +258,26 @@ Definition client_decode (r : reply) : outcome :=
   | RpNone => ONothing
   end.
 
+(* ---- tcp / unix: the rejection races with the teardown of the connection -------------------
+   Handler.send writes the error frame and at once reports the error; Serve then closes the
+   connection although the body the client announced is still unread (or still being written).
+   Closing with unread data resets the connection.  On the client the Send goroutine (write
+   fails: broken pipe / connection reset) and the Receive goroutine (decodes the error frame)
+   both end in conn.Close(err); whichever gets there first decides what the pending call returns,
+   and a reset can also discard the frame before it is read.  [race] is that choice of schedule;
+   [still_writing]: the client had not finished writing the body when the server hung up.
+   hooks/c13-fix-socket-reject-linger.patch makes the server wait (bounded) for the client to
+   finish: [linger = true] removes the TeardownFirst schedules. *)
+Inductive race := FrameFirst | TeardownFirst.
+
+Definition caller_outcome (linger : bool) (tr : transport) (v : verdict) (still_writing : bool)
+  (r : race) : outcome :=
+  match tr, v, r with
+  | (Tcp | Unix), RejectInBand, TeardownFirst =>
+      if still_writing && negb linger then OOtherError else client_decode (reply_of v)
+  | _, _, _ => client_decode (reply_of v)
+  end.
+
 (* ---- level B: the same decisions on bytes, through Model/Frame.v --------------------------- *)
 
 (* index |= math.MinInt32 (socket, websocket), index |= 0x8000 (udp) *)
